@@ -242,6 +242,11 @@ def match_packages(
 
         if not keywords:
             keywords = list(cc_arches)
+            # inherited arches are requested just like written ones
+            if unknown := frozenset(keywords) - valid_arches:
+                raise KeywordNoMatch(
+                    f"incorrect keywords: {' '.join(sorted(unknown))}"
+                )
         elif cc_arches:
             keywords = [x for x in keywords if x in cc_arches]
             # the line is no longer addressed to anyone
